@@ -33,15 +33,21 @@ class HistoryTimeout(BaseException):
 
 @contextlib.contextmanager
 def time_limit(seconds=2.0):
+    """`seconds` of CPU time of this process (robust against a loaded machine: a descheduled process is not a
+    hanging history), plus a generous wall-clock limit for a history that blocks without computing."""
     def handler(signum, frame):
         raise HistoryTimeout()
-    old = signal.signal(signal.SIGALRM, handler)
-    signal.setitimer(signal.ITIMER_REAL, seconds)
+    old_v = signal.signal(signal.SIGVTALRM, handler)
+    old_r = signal.signal(signal.SIGALRM, handler)
+    signal.setitimer(signal.ITIMER_VIRTUAL, seconds)
+    signal.setitimer(signal.ITIMER_REAL, 30 * seconds)
     try:
         yield
     finally:
+        signal.setitimer(signal.ITIMER_VIRTUAL, 0)
         signal.setitimer(signal.ITIMER_REAL, 0)
-        signal.signal(signal.SIGALRM, old)
+        signal.signal(signal.SIGVTALRM, old_v)
+        signal.signal(signal.SIGALRM, old_r)
 
 
 class BadRef(Exception):
